@@ -20,7 +20,8 @@ SHRINK = True
 RULE = ("histories = 1-2 batch_run calls on the scripted model class BM: parameter dictionaries over n, stop, ic, sc, ar, churn, k "
         "(ints, None) and two pass-through parameters (strings, dicts, lists as values) given as scalars, strings, lists, tuples, "
         "ranges (incl. empty range -> no runs, empty list -> ValueError); iterations 1-3, max_steps 0-6, "
-        "data_collection_period -1/1/2/3; models that stop early, collect at construction and/or inside step, with/without "
+        "data_collection_period -1/1/2/3; models that stop early, collect 0-3 times at construction and/or inside step "
+        "(model-level and agent-level state changing between collects of one step), with/without "
         "agent reporters, with agent churn; a few calls with number_processes 2-3 (run in a helper process, compared with "
         "the serial call); the multiset of rows is observed; non-trivial = at least 2 rows; distinct = by SHA1")
 TRUSTED_BASE = [
@@ -36,11 +37,13 @@ TRUSTED_BASE = [
 ASSUMPTIONS = [
     "requested steps = the steps at which the model collected that are multiples of data_collection_period (k >= 1), plus "
     "the last collection; period -1 = the last collection only",
-    "models collect at construction and/or once inside every step (the quantifier); the model class is deterministic",
+    "models collect 0-3 times at construction and 0-3 times inside every step, changing model-level and agent-level state "
+    "between two collections made at the same model.steps; a row of step s carries the LAST collection made at s (what "
+    "_agent_records holds); the model class is deterministic",
     "parameter values are ints/None for the parameters BM interprets; strings, dicts and lists are passed through",
 ]
 NAMES = ["n", "stop", "ic", "sc", "ar", "churn", "k", "tag", "obj"]
-MKEYS = ["Steps", "Sum", "K"]
+MKEYS = ["Steps", "Sum", "K", "T"]
 AKEYS = ["sv", "val"]
 E_VALUE = 2
 HERE = os.path.dirname(os.path.abspath(__file__))
@@ -62,7 +65,7 @@ def _gen_param(rng, name, objects):
         if kind == "str":
             return [name, "str", code(["a", "bc", "sigmoid"])]
         return [name, kind, [code(pool) for _ in range(rng.randint(1, 2))]]
-    dom = {"n": [0, 1, 2, 3], "stop": [-1, 1, 2, 3, 5], "ic": [0, 1], "sc": [0, 1], "ar": [0, 1], "churn": [0, 1], "k": [0, 1, 7]}[name]
+    dom = {"n": [0, 1, 2, 3], "stop": [-1, 1, 2, 3, 5], "ic": [0, 1, 2, 2, 3], "sc": [0, 1, 1, 2, 2, 3], "ar": [0, 1], "churn": [0, 1], "k": [0, 1, 7]}[name]
     kind = rng.choice(["scalar", "scalar", "list", "list", "tuple", "range"])
     if name == "stop" and kind == "range":
         kind = "list"
@@ -115,7 +118,7 @@ def gen_cases(rng, tier):
 
 def enumerate_cases(tier, broken=False):
     """every collection pattern (ic, sc) x agent reporters x stop in {never, 1, 3} x max_steps 0..4 x period -1,1,2,3"""
-    for ic, sc, ar in itertools.product([0, 1], repeat=3):
+    for ic, sc, ar in itertools.product([0, 1, 2], [0, 1, 2], [0, 1]):
         for stop in (-1, 1, 3):
             for max_steps in range(0, 5):
                 ops = [["batch", [["ic", "scalar", ic], ["sc", "scalar", sc], ["ar", "scalar", ar], ["stop", "scalar", stop],
@@ -336,6 +339,18 @@ def run_impl(case):
                          f"run {run_id} {kw} max_steps={max_steps} period={period}: row {r} is labelled Step {lab} but its model-level "
                          f"value was collected at step {r.get('Steps')} and its agent-level value at step {r['sv'] // 1000 if 'sv' in r else None}")
             log = inst.log if inst is not None else hand.log
+            for r in mine:
+                # the row must be ONE collection of the model: same step, same model-level values, and its agent in it
+                def same(e, r=r):
+                    return (e[0] == r.get("Step") and all(r.get(k) == v for k, v in e[1].items())
+                            and ("AgentID" not in r or any(aid == r["AgentID"] and all(r.get(k) == v for k, v in av.items())
+                                                           for aid, av in e[2])))
+                if log and not any(same(e) for e in log):
+                    specific = True
+                    at = [(e[1], e[2]) for e in log if e[0] == r.get("Step")]
+                    fail("C13/batch_run/row-mixes-collections", i,
+                         f"run {run_id} {kw} max_steps={max_steps} period={period}: row {r} is not one of the model's collections at "
+                         f"step {r.get('Step')} (model-level values, agents): {at}")
             if log:
                 last = log[-1]
                 if not any(r.get("Step") == last[0] and all(r.get(k) == v for k, v in last[1].items()) for r in mine):
